@@ -24,7 +24,7 @@ class C17(Spec):
             "case changed, blanks varied, plus mutated cookie strings, parsed from exactly sized non-terminated heap copies "
             "under ASan+UBSan; J: Cookie headers with 0-8 pairs, repeated names and values, odd separators; both iterator "
             "increments. non-trivial = cookie with at least one attribute / jar with a repeated name; distinct by case line")
-    assumptions = ["Expires is outside the executable model (dates are a parameter of the theorems): such cases are checked by the "
+    assumptions = ["Expires: since round 6 the executable model writes and reads dates with DateModel (canonical text only, whole seconds of 1678..2261); formerly: "
                    "oracle on the implementation only"]
 
     def tok(self, rng, lo, hi, alphabet=OCT, forbid=b""):
